@@ -30,10 +30,7 @@ type c08case struct {
 
 func c08NewDoc() *document.Document {
 	d := document.New(key.Key("c08-doc"))
-	go func() {
-		for range d.Events() {
-		}
-	}()
+	drainEvents(d.Events())
 	_ = d.Update(func(r *yjson.Object, p *document.Presence) error {
 		for _, op := range []string{"init.o", "init.a", "init.t", "init.c", "init.tr"} {
 			hist.Ops[op].Apply(r, p, 0)
@@ -114,6 +111,7 @@ func c08Failing(d *document.Document, c *c08case) (failed bool, detail string) {
 }
 
 func c08Eval(c *c08case) string {
+	defer releaseDocs()
 	d := c08NewDoc()
 	twin := c08NewDoc()
 	for i, op := range c.Prefix {
